@@ -78,6 +78,9 @@ def main():
             sh(["git", "-C", "/repo", "worktree", "remove", "--force", wt])
             shutil.rmtree(wt, ignore_errors=True)
     sh(["git", "-C", "/repo", "worktree", "prune"])
+    if os.environ.get("SELFTEST_JSON"):
+        with open(os.environ["SELFTEST_JSON"], "w") as f:
+            json.dump([{"name": n, "verdict": v, "info": i} for n, v, i in results], f, indent=1)
     missed = 0
     for name, verdict, info in results:
         print("%-44s %s %s" % (name, verdict, json.dumps(info)[:400]))
